@@ -15,6 +15,9 @@ pub enum Val {
     Num(u64),
     /// span in the *input kind's* offsets
     Span(usize, usize),
+    /// (reference only, C16) a span from inside a nested input in absolute offsets: exact, or
+    /// (false) an empty span lying within [a, b]
+    Abs(usize, usize, bool),
     /// slice: (offset of slice start from the input buffer's base in tokens/bytes, length, content)
     Slice(usize, usize, String),
     /// observation of a node: node id, span, (optional) state snapshot, inner value
@@ -40,6 +43,8 @@ impl fmt::Debug for Val {
             Val::Opt(Some(v)) => write!(f, "Some({:?})", v),
             Val::Num(n) => write!(f, "{}", n),
             Val::Span(s, e) => write!(f, "{}..{}", s, e),
+            Val::Abs(a, b, true) => write!(f, "abs {}..{}", a, b),
+            Val::Abs(a, b, false) => write!(f, "abs-empty-in {}..={}", a, b),
             Val::Slice(o, l, s) => write!(f, "slice@{}+{}{:?}", o, l, s),
             Val::Obs(id, s, e, v) => write!(f, "#{}[{}..{}]{:?}", id, s, e, v),
             Val::St(n, h, v) => write!(f, "st({},{:x}){:?}", n, h, v),
@@ -110,7 +115,7 @@ impl Val {
                     mix(h, 8);
                     mix(h, *n)
                 }
-                Val::Span(..) => mix(h, 9),
+                Val::Span(..) | Val::Abs(..) => mix(h, 9),
                 Val::Slice(_, _, s) => {
                     mix(h, 10);
                     for c in s.chars() {
